@@ -222,6 +222,7 @@ type treeHarness struct {
 	bad     string
 	mapLeak string // an unclassified (untagged map) value that did not come out redacted
 	pubLost string // a public-classified value that was not preserved
+	tagged  bool   // the maps walked belong to a Taggable map: their values may be named by pointer tags
 }
 
 func (h *treeHarness) leafOut(v string, m int) string {
@@ -347,12 +348,12 @@ func (h *treeHarness) show(t *tv, v reflect.Value) []string {
 			// unclassified data is always redacted, whatever the overrides say
 			switch it.v.kind {
 			case "s", "b":
-				if sub[0] != "R" && h.mapLeak == "" {
+				if sub[0] != "R" && h.mapLeak == "" && !h.tagged {
 					h.mapLeak = fmt.Sprintf("the value under key k%d of an untagged map came out as %s", it.key, sub[0])
 				}
 			case "S", "B":
 				for _, x := range sub[2:] {
-					if x != "R" && x != "nil" && h.mapLeak == "" {
+					if x != "R" && x != "nil" && h.mapLeak == "" && !h.tagged {
 						h.mapLeak = fmt.Sprintf("an element of the slice under key k%d of an untagged map came out as %s", it.key, x)
 					}
 				}
